@@ -343,7 +343,10 @@ class FileManager:
             manifest_data = json.loads(content.decode("utf-8"))
 
             data_files = []
-            for file_entry in manifest_data.get("files", []):
+            # Subscript, not .get(): a JSON document without a "files" list is
+            # not a manifest (e.g. a sibling metadata file copied over this
+            # one) and must fail to parse - never load as an empty manifest.
+            for file_entry in manifest_data["files"]:
                 data_file = DataFile(
                     file_path=file_entry["file_path"],
                     file_format=FileFormat(file_entry["file_format"]),
@@ -457,7 +460,9 @@ class FileManager:
             list_data = json.loads(content.decode("utf-8"))
 
             manifest_files = []
-            for manifest_entry in list_data.get("manifests", []):
+            # Subscript, not .get(): see read_manifest_file - a document without
+            # the "manifests" list is not an (empty) manifest list.
+            for manifest_entry in list_data["manifests"]:
                 manifest_file = ManifestFile(
                     manifest_path=manifest_entry["manifest_path"],
                     manifest_length=manifest_entry["manifest_length"],
